@@ -19,3 +19,13 @@ impl<T> IndexSpecImpl<&usize> for NonEmptyVec<T> {
 pub proof fn axiom_vec_len_bound<T>(v: &Vec<T>)
     ensures v@.len() < usize::MAX
 {}
+// Vec::extend(Vec) appends the elements in order (T: std contract of Extend for Vec)
+#[verifier::external_body]
+fn __h_extend<T>(res: &mut Vec<T>, tail: Vec<T>)
+    ensures final(res)@ == old(res)@ + tail@
+{ res.extend(tail) }
+// spec side of `impl From<NonEmptyVec<T>> for Vec<T>`: the conversion yields the abstract view
+impl<T> vstd::std_specs::convert::FromSpecImpl<NonEmptyVec<T>> for Vec<T> {
+    open spec fn obeys_from_spec() -> bool { false }
+    open spec fn from_spec(v: NonEmptyVec<T>) -> Self { arbitrary() }
+}
